@@ -13,8 +13,10 @@
 
 static int thorough;
 
-enum { M_ID12 = 0, M_TICKET12, M_PSK13, M_NMODE };
-static const char *mname[] = { "tls12-session-id", "tls12-ticket", "tls13-psk" };
+enum { M_ID12 = 0, M_TICKET12, M_PSK13, M_IDD, M_TICKETD, M_NMODE };  /* M_IDD / M_TICKETD: the same over DTLS 1.2 */
+#define IS_ID(m) ((m) == M_ID12 || (m) == M_IDD)
+#define IS_TICKET(m) ((m) == M_TICKET12 || (m) == M_TICKETD)
+static const char *mname[] = { "tls12-session-id", "tls12-ticket", "tls13-psk", "dtls12-session-id", "dtls12-ticket" };
 
 enum { O_F0 = 0, O_F1, O_R0, O_R1, O_R0E, O_STEAL, O_TICK, O_TICK2, O_FATAL0, O_EVICT, O_KADD, O_KDEL, O_NOP };
 static const char *oname[] = { "full(c0)", "full(c1)", "resume(c0)", "resume(c1)", "resume(c0,ems-off)", "steal(c1<-c0)", "tick(50000s)", "tick(100000s)", "fatal(c0)", "evict33", "addkey", "delkey" };
@@ -62,6 +64,8 @@ static void setup(hist_t *H, int mode)
     case M_ID12: c.ver = V_TLS12; c.kx = KX_PSK; break;
     case M_TICKET12: c.ver = V_TLS12; c.kx = KX_RSA; c.tickets = 1; break;
     case M_PSK13: c.ver = V_TLS13; c.kx = KX_13_RSA; c.tickets = 1; break;
+    case M_IDD: c.ver = V_DTLS12; c.kx = KX_PSK; break;
+    case M_TICKETD: c.ver = V_DTLS12; c.kx = KX_RSA; c.tickets = 1; break;
     }
     if (world_init(&H->w, &c) < 0)
     {
@@ -200,7 +204,7 @@ static int model_allows(hist_t *H, int ci, int ems_off, const msess_t *m, const 
     {
         *why = "expired"; return 0;
     }
-    if (H->mode == M_ID12 && m->invalidated)
+    if (IS_ID(H->mode) && m->invalidated)
     {
         *why = "invalidated-by-fatal-alert"; return 0;
     }
@@ -208,7 +212,7 @@ static int model_allows(hist_t *H, int ci, int ems_off, const msess_t *m, const 
     {
         *why = "extended-master-secret-mismatch"; return 0;
     }
-    if (H->mode != M_ID12 && !H->key_alive[m->keyidx])
+    if (!IS_ID(H->mode) && !H->key_alive[m->keyidx])
     {
         *why = "ticket-key-deleted"; return 0;
     }
@@ -315,7 +319,7 @@ static void apply_op(hist_t *H, int op)
         else if (res >= 0 && !(res & 1))
         {
             /* failed handshake: the server must have dropped the entry if it was a resumption attempt */
-            if (H->mode == M_ID12)
+            if (IS_ID(H->mode))
             {
                 H->held[ci].invalidated = 1;
             }
@@ -368,7 +372,7 @@ static void apply_op(hist_t *H, int op)
             matrixSslClearSessionId(b);
             H->stolen = 0;
             /* a failed handshake on c0's cached id invalidates it */
-            if (H->mode == M_ID12 && res >= 0 && !(res & 1))
+            if (IS_ID(H->mode) && res >= 0 && !(res & 1))
             {
                 H->held[0].invalidated = 1;
             }
@@ -398,7 +402,7 @@ static void apply_op(hist_t *H, int op)
         }
         break;
     case O_KADD:
-        if (H->mode != M_ID12 && H->nkeys < 4)
+        if (!IS_ID(H->mode) && H->nkeys < 4)
         {
             static const unsigned char sk[32] = { 9, 8, 7, 6, 5, 4, 3, 2, 1, 0, 9, 8, 7, 6, 5, 4, 3, 2, 1, 0, 9, 8, 7, 6, 5, 4, 3, 2, 1, 0, 9, 8 };
             if (matrixSslLoadSessionTicketKeys(H->w.s[1].keys, tk_names[H->nkeys], sk, 32, sk, 32) >= 0)
@@ -409,7 +413,7 @@ static void apply_op(hist_t *H, int op)
         }
         break;
     case O_KDEL:
-        if (H->mode != M_ID12)
+        if (!IS_ID(H->mode))
         {
             /* delete the oldest live key, but keep at least one */
             int live = 0, k, oldest = -1;
@@ -446,8 +450,8 @@ static int cred_bytes(hist_t *H)
     {
         return 0;
     }
-    if (H->mode == M_ID12) return 32;
-    if (H->mode == M_TICKET12) return s->sessionTicket ? s->sessionTicketLen : 0;
+    if (IS_ID(H->mode)) return 32;
+    if (IS_TICKET(H->mode)) return s->sessionTicket ? s->sessionTicketLen : 0;
     return s->psk ? s->psk->pskIdLen : 0;
 }
 
@@ -463,8 +467,8 @@ static int apply_edit_and_try(hist_t *H, int e)
     {
         return 0;
     }
-    if (H->mode == M_ID12) buf = s->id;
-    else if (H->mode == M_TICKET12) buf = s->sessionTicket;
+    if (IS_ID(H->mode)) buf = s->id;
+    else if (IS_TICKET(H->mode)) buf = s->sessionTicket;
     else buf = s->psk->pskId;
     if ((e & 1) == 0)
     {
@@ -481,15 +485,15 @@ static int apply_edit_and_try(hist_t *H, int e)
         {
             return 0;
         }
-        if (H->mode == M_ID12) s->idLen = (psSize_t) k;
-        else if (H->mode == M_TICKET12) s->sessionTicketLen = (psSize_t) k;
+        if (IS_ID(H->mode)) s->idLen = (psSize_t) k;
+        else if (IS_TICKET(H->mode)) s->sessionTicketLen = (psSize_t) k;
         else s->psk->pskIdLen = (psSize_t) k;
         what = "truncated";
     }
     res = connect_once(H, 0, 0, 0, ssec, &slen);
     if (res >= 0 && (res & 1) && (res & 2) && !H->viol[0])
     {
-        snprintf(H->viol, sizeof(H->viol), "resumed-with-%s-%s", what, H->mode == M_ID12 ? "session-id" : H->mode == M_TICKET12 ? "ticket" : "psk-identity");
+        snprintf(H->viol, sizeof(H->viol), "resumed-with-%s-%s", what, IS_ID(H->mode) ? "session-id" : IS_TICKET(H->mode) ? "ticket" : "psk-identity");
     }
     return 1;
 }
@@ -561,11 +565,11 @@ static void gen(int mode, int depth, int maxdepth, case_t *cur)
     }
     for (op = 0; op < O_NOP; op++)
     {
-        if (mode == M_ID12 && (op == O_KADD || op == O_KDEL))
+        if (IS_ID(mode) && (op == O_KADD || op == O_KDEL))
         {
             continue;
         }
-        if (mode != M_ID12 && op == O_EVICT)
+        if (!IS_ID(mode) && op == O_EVICT)
         {
             continue; /* the bounded cache plays no role for stateless tickets */
         }
@@ -698,7 +702,7 @@ int main(int argc, char **argv)
             case_t c;
             memset(&c, 0, sizeof(c));
             c.mode = mode; c.depth = 1; c.ops[0] = O_F0; c.edit = e;
-            if (mode != M_ID12 && !thorough && (e & 1) == 0 && e / 2 >= 8 * 16 && ((e / 2) % 7) != 0)
+            if (!IS_ID(mode) && !thorough && (e & 1) == 0 && e / 2 >= 8 * 16 && ((e / 2) % 7) != 0)
             {
                 continue; /* quick: every bit of the first 16 bytes (key name), every 7th bit after; all truncations */
             }
